@@ -1,22 +1,99 @@
 (** C05  Chain database consistency after any history of block arrivals.
     Only statements, each closed by [exact] of a lemma proved in ChainDB/*, followed by
-    [Print Assumptions]. *)
+    [Print Assumptions].  Hypotheses common to all: block execution is a deterministic function
+    [apply] with the replay-protection property (a transaction executed on a state is [spent]
+    afterwards and cannot be executed again: what C04 proves of the ledger); the blocks that
+    arrive ([U]) carry collision-free identifiers (F8 excluded).  [add_block ... true] is the
+    model of the repaired reorg (fixes/F7_reorg_restore_state.diff), [false] the unrepaired one. *)
 From Coq Require Import NArith List Bool.
-From Verif Require Import ChainDB.Model ChainDB.Inv ChainDB.Reorg.
+From Verif Require Import ChainDB.Model ChainDB.Inv ChainDB.Reorg ChainDB.AddBlock ChainDB.Refute.
 Import ListNotations.
 Open Scope N_scope.
 
-(** Connecting a valid child of the tip (executeBlock + connectToChain) keeps the invariant. *)
-Theorem C05_connect_main_inv :
+(** The invariant holds after genesis initialisation. *)
+Theorem C05_inv_init :
   forall (apply : sroot -> block -> option sroot) (spent : sroot -> txid -> bool),
   (forall r b r', apply r b = Some r' -> NoDup (txs b) /\ forall t, In t (txs b) -> spent r t = false) ->
   (forall r b r' t, apply r b = Some r' -> spent r' t = spent r t || mem t (txs b)) ->
   forall (U : block -> Prop), (forall a b, U a -> U b -> hash_field a = hash_field b -> a = b) ->
-  forall g n b n',
-  Inv apply spent U g n -> U b -> prev b = hash_field (best n) -> no b = no (best n) + 1 ->
-  connect_main apply n b = Some n' ->
-  Inv apply spent U g n' /\ best n' = b /\ orphans n' = orphans n /\ bad n' = bad n /\ lib n' = lib n /\
-  (forall id x, get_block (dur n) id = Some x -> get_block (dur n') id = Some x) /\
-  get_block (dur n') (hash_field b) = Some b.
-Proof. exact connect_main_inv. Qed.
-Print Assumptions C05_connect_main_inv.
+  forall (g : block),
+  U g -> no g = 0 -> txs g = [] -> Inv apply spent U g (init_node g).
+Proof. intros; eapply inv_init; eauto. Qed.
+Print Assumptions C05_inv_init.
+
+(** addBlock keeps the invariant for EVERY arriving block (valid, invalid at any stage, duplicate,
+    orphan, side branch, forged parent or number, triggering a reorganisation of any depth or a
+    failed one) that does not carry BlockNo 0. *)
+Theorem C05_add_block_inv :
+  forall (apply : sroot -> block -> option sroot) (orphan_cap : nat) (spent : sroot -> txid -> bool),
+  (forall r b r', apply r b = Some r' -> NoDup (txs b) /\ forall t, In t (txs b) -> spent r t = false) ->
+  (forall r b r' t, apply r b = Some r' -> spent r' t = spent r t || mem t (txs b)) ->
+  forall (U : block -> Prop), (forall a b, U a -> U b -> hash_field a = hash_field b -> a = b) ->
+  forall (g : block),
+  forall n b, Inv apply spent U g n -> U b -> no b <> 0 ->
+  Inv apply spent U g (fst (add_block apply true orphan_cap n b)).
+Proof. exact add_block_inv. Qed.
+Print Assumptions C05_add_block_inv.
+
+(** Hence after every history of arrivals (with any LIB stream). *)
+Theorem C05_history_inv :
+  forall (apply : sroot -> block -> option sroot) (orphan_cap : nat) (spent : sroot -> txid -> bool),
+  (forall r b r', apply r b = Some r' -> NoDup (txs b) /\ forall t, In t (txs b) -> spent r t = false) ->
+  (forall r b r' t, apply r b = Some r' -> spent r' t = spent r t || mem t (txs b)) ->
+  forall (U : block -> Prop), (forall a b, U a -> U b -> hash_field a = hash_field b -> a = b) ->
+  forall (g : block),
+  forall (l : list (N * block)) n, Inv apply spent U g n ->
+  (forall x, In x l -> U (snd x) /\ no (snd x) <> 0) ->
+  Inv apply spent U g (history apply true orphan_cap n l).
+Proof. exact history_inv. Qed.
+Print Assumptions C05_history_inv.
+
+(** Query surface: a transaction of a main-chain block is reported confirmed at its block and
+    position ... *)
+Theorem C05_get_tx_complete :
+  forall (apply : sroot -> block -> option sroot) (spent : sroot -> txid -> bool),
+  (forall r b r', apply r b = Some r' -> NoDup (txs b) /\ forall t, In t (txs b) -> spent r t = false) ->
+  (forall r b r' t, apply r b = Some r' -> spent r' t = spent r t || mem t (txs b)) ->
+  forall (U : block -> Prop), (forall a b, U a -> U b -> hash_field a = hash_field b -> a = b) ->
+  forall (g : block),
+  forall n k b i t, Inv apply spent U g n -> k <= no (best n) -> mainb (dur n) k = Some b ->
+  nth_error (txs b) i = Some t -> get_tx (dur n) t = TxMain (hash_field b) i.
+Proof. intros; eapply inv_get_tx_complete; eauto. Qed.
+Print Assumptions C05_get_tx_complete.
+
+(** ... and a transaction reported confirmed is in that main-chain block at that position
+    (transactions only on abandoned branches are never reported confirmed). *)
+Theorem C05_get_tx_sound :
+  forall (apply : sroot -> block -> option sroot) (spent : sroot -> txid -> bool),
+  (forall r b r', apply r b = Some r' -> NoDup (txs b) /\ forall t, In t (txs b) -> spent r t = false) ->
+  (forall r b r' t, apply r b = Some r' -> spent r' t = spent r t || mem t (txs b)) ->
+  forall (U : block -> Prop), (forall a b, U a -> U b -> hash_field a = hash_field b -> a = b) ->
+  forall (g : block),
+  forall n t id i, Inv apply spent U g n -> get_tx (dur n) t = TxMain id i ->
+  exists k b, k <= no (best n) /\ mainb (dur n) k = Some b /\ hash_field b = id /\ nth_error (txs b) i = Some t.
+Proof. intros; eapply inv_get_tx_sound; eauto. Qed.
+Print Assumptions C05_get_tx_sound.
+
+(** F7: for the unrepaired reorg the statement is false (G-A1 main, G-B1 side, B2 invalid). *)
+Theorem C05_add_block_inv_refuted :
+  exists (apply : sroot -> block -> option sroot) (spent : sroot -> txid -> bool) (U : block -> Prop)
+         (g : block) (n : node) (b : block),
+    (forall r b r', apply r b = Some r' -> NoDup (txs b) /\ forall t, In t (txs b) -> spent r t = false) /\
+    (forall r b r' t, apply r b = Some r' -> spent r' t = spent r t || mem t (txs b)) /\
+    (forall a b, U a -> U b -> hash_field a = hash_field b -> a = b) /\
+    Inv apply spent U g n /\ U b /\ no b <> 0 /\
+    ~ Inv apply spent U g (fst (add_block apply false 100 n b)).
+Proof. exact add_block_inv_refuted. Qed.
+Print Assumptions C05_add_block_inv_refuted.
+
+(** BlockNo 0: without [no b <> 0] the statement is false even for the repaired code. *)
+Theorem C05_add_block_inv_no0_refuted :
+  exists (apply : sroot -> block -> option sroot) (spent : sroot -> txid -> bool) (U : block -> Prop)
+         (g : block) (n : node) (b : block),
+    (forall r b r', apply r b = Some r' -> NoDup (txs b) /\ forall t, In t (txs b) -> spent r t = false) /\
+    (forall r b r' t, apply r b = Some r' -> spent r' t = spent r t || mem t (txs b)) /\
+    (forall a b, U a -> U b -> hash_field a = hash_field b -> a = b) /\
+    Inv apply spent U g n /\ U b /\ no b = 0 /\
+    ~ Inv apply spent U g (fst (add_block apply true 100 n b)).
+Proof. exact add_block_inv_no0_refuted. Qed.
+Print Assumptions C05_add_block_inv_no0_refuted.
